@@ -68,3 +68,237 @@ def static_obligations(repo):
                                      for s in ast.walk(ts))
     out.append(("display.chunks_joined_in_order", ok_join, rel, ts.lineno if ts else 0))
     return out
+
+
+# ====================================================================== denotation of the text of ONE polynomial (C16)
+import z3
+from engine.contract import Contract, Case
+from engine.sx import LoopSpec
+from engine import values as V
+from engine.values import U
+from engine.logic import I, R, Name, expo
+from engine.polymodel import Poly, Region, nat, shape_axioms, mono_axioms, the_idx, shp0
+from engine.sortmodel import order_axioms, IntVec
+from engine.textmodel import Text
+
+
+class ScalarCoefs:
+    """`poly.coefficients` of a 0-d polynomial: a list of 0-d arrays, each used as a number (truth value, ==, abs, <, str)"""
+
+    def __init__(self, P):
+        self.P = P
+
+    def sx_getitem(self, ex, idx, node):
+        if isinstance(idx, (int, z3.ArithRef)):
+            ex.oblige(f"pre({ex.site('coefficient')}).term_exists", z3.And(0 <= idx, idx < self.P.N), "index", node)
+            return self.P.C(idx, the_idx(self.P.shape))
+        raise U("coefficient list index", node)
+
+
+class Poly0d:
+    """the `poly` argument of _to_string: one polynomial (0-d ndpoly); only the attributes the function reads"""
+
+    def __init__(self, ex, P, names):
+        self.P, self.names = P, names
+
+    def sx_getattr(self, ex, attr, node):
+        if attr == "exponents":
+            return self.P.sx_getattr(ex, "exponents", node)
+        if attr == "coefficients":
+            return ScalarCoefs(self.P)
+        if attr == "names":
+            return self.names
+        raise U(f"attribute {attr} of the polynomial in _to_string", node)
+
+
+class ChunkList:
+    """the list of text chunks (`output`): only its emptiness is read; every append is checked where it happens"""
+
+    def __init__(self, ex, on_append):
+        self.L = ex.ctx.int("chunks_so_far")
+        ex.ctx.assume(self.L >= 0)
+        self.on_append = on_append
+        self.appended = []
+
+    def sx_truth(self, ex):
+        return self.L > 0
+
+    def sx_getattr(self, ex, attr, node):
+        return V.BoundMethod(self, attr)
+
+    def sx_method(self, ex, attr, args, kw, node):
+        if attr == "append" and len(args) == 1 and not kw:
+            self.on_append(ex, self, args[0], node)
+            self.appended.append(args[0])
+            return None
+        raise U(f"list.{attr} on the chunk list", node)
+
+
+def read_chunk(x):
+    """Independent reading of one chunk of text (token level): [+] [-] [number] then factors name[<exp>int] separated by <mul>.
+    Returns dict(plus, minus, coef (z3 real or None), factors [(name term, exponent term or 1)], error)"""
+    toks = list(x.toks) if isinstance(x, Text) else ([("lit", x)] if x else [])
+    out = dict(plus=False, minus=False, coef=None, factors=[], error=None)
+    if toks and toks[0][0] == "lit":
+        s = toks[0][1]
+        if s.startswith("+"):
+            out["plus"], s = True, s[1:]
+        if s.startswith("-"):
+            out["minus"], s = True, s[1:]
+        if s:
+            out["error"] = f"unexpected literal text {s!r}"
+            return out
+        toks = toks[1:]
+    if toks and toks[0][0] == "num":
+        if out["minus"]:
+            out["error"] = "a literal '-' in front of a printed number"
+            return out
+        out["coef"] = toks[0][1]
+        toks = toks[1:]
+        need_mul = True
+    else:
+        need_mul = False
+    while toks:
+        if need_mul:
+            if toks[0] != ("opt", "display_multiply"):
+                out["error"] = f"expected the multiplication sign, found {toks[0]}"
+                return out
+            toks = toks[1:]
+        if not toks or toks[0][0] != "name":
+            out["error"] = "expected an indeterminate name"
+            return out
+        name, e = toks[0][1], 1
+        toks = toks[1:]
+        if len(toks) >= 2 and toks[0] == ("opt", "display_exponent") and toks[1][0] == "int":
+            e = toks[1][1]
+            toks = toks[2:]
+        out["factors"].append((name, e))
+        need_mul = True
+    return out
+
+
+class ToStringBody(Contract):
+    """_to_string(poly, precision, suppress_small) for ONE polynomial: every chunk appended to the output reads back (token
+    level, reader above) as  sign * coefficient * prod name_d ** exponent_d  of the term it was emitted for; chunks after the
+    first start with a sign; a term is skipped only if its coefficient is zero (or suppressed as small on request); every
+    term is visited exactly once."""
+    name = "numpoly.array_repr._to_string"
+    relpath = "numpoly/array_function/array_repr.py"
+    func = "_to_string"
+    properties = ("C16",)
+    positional = ("poly", "precision", "suppress_small")
+    assumptions = ("text axioms (engine/textmodel.py): str(c) of a real number is never '', '+' or '-' and starts with '-' exactly when "
+                   "c < 0; names are identifiers; A1 (real coefficients: complex and NaN coefficients are bounded only)",
+                   "token-level reading: the option strings display_multiply / display_exponent are taken as separators that do not "
+                   "occur inside numbers and names (the bounded check reads the real characters back)",
+                   "coefficients of a 0-d polynomial behave as numbers (0-d arrays); number of indeterminates enumerated: 1, 2 (the loop over the indeterminates is unrolled; "
+                   "more indeterminates repeat the body of the second: bounded check)")
+
+    def _loops(self):
+        def inv(ex, env, k):
+            g = ex.ghost
+            out = []
+            cl = env.get("output")
+            first_after_havoc = g.get("in_body") and not g.get("assumed")
+            if first_after_havoc:
+                g["assumed"] = True            # (the call that ASSUMES the invariant at the start of the arbitrary iteration)
+            elif g.get("in_body"):
+                # end of the iteration that visited term idx: either one chunk was appended, or the term may be left out
+                idx = g["env"]["idx"]
+                c = g["P"].C(idx, the_idx(g["P"].shape))
+                n_app = len(cl.appended) if isinstance(cl, ChunkList) else -1
+                small = z3.And(g["suppress_small"], z3.If(c >= 0, c, -c) < g["threshold"](ex)) if g["suppress_small"] is not False else z3.BoolVal(False)
+                out.append(("term_left_out_only_if_zero_or_suppressed", z3.Or(z3.BoolVal(n_app == 1), z3.And(z3.BoolVal(n_app == 0), z3.Or(c == 0, small)))))
+            out.append(("chunks_are_a_list", z3.BoolVal(isinstance(cl, (ChunkList, list)))))
+            return out
+
+        def havoc(ex, env, k):
+            g = ex.ghost
+            env["output"] = ChunkList(ex, g["on_append"])
+            g["env"] = env
+            g["in_body"], g["assumed"] = True, False
+
+        def enter(ex, env, seq):
+            g = ex.ghost
+            P = g["P"]
+            ctx = ex.ctx
+            ok = isinstance(env.get("indices"), IntVec) and getattr(env["indices"], "inv", None) is not None
+            ex.oblige("loop1.visits.order_is_a_permutation_from_glexsort", z3.BoolVal(ok), "post")
+            if ok:
+                iv = env["indices"]
+                ex.oblige("loop1.visits.every_term_exactly_once", z3.And(iv.n == P.N, ctx.forall_range(0, P.N, lambda t: z3.And(
+                    0 <= iv.inv(t), iv.inv(t) < P.N, iv.at(iv.inv(t)) == t))), "post",
+                    note="the order visits every stored term (inverse permutation as witness)")
+        return {1: LoopSpec(inv, havoc, modifies=("idx", "out", "exps_and_names", "exponent", "indeterminant"), enter=enter)}
+
+    def cases(self):
+        for D in (1, 2):
+            for ss in ("off", "symbolic"):
+                def make_env(ex, D=D, ss=ss):
+                    ctx = ex.ctx
+                    for a in shape_axioms(ctx) + mono_axioms(ctx) + order_axioms(ctx):
+                        ctx.assume(a)
+                    P = Poly(ctx, "poly", D=D, shape=shp0, region=Region("caller", "poly"))
+                    ctx.assume(P.wf(ctx))
+                    from contracts.construct import keyok, eok_axioms
+                    for a in eok_axioms():
+                        ctx.assume(a)
+                    ctx.assume(ctx.forall_range(0, P.N, lambda t: keyok(P.row(t), P.D)))       # stored exponents are >= 0
+                    names = tuple(nat(P.names, d) for d in range(D))
+                    precision = ctx.int("precision")
+                    suppress = False if ss == "off" else ctx.bool("suppress_small")
+                    ex.ghost = dict(P=P, names=names, D=D, suppress_small=suppress, on_append=self._on_append, in_body=False,
+                                    threshold=lambda ex_: V.binop(ex_, "Pow", 10, -precision, None))
+                    ex.hooks = {}
+                    return {"poly": Poly0d(ex, P, names), "precision": precision, "suppress_small": suppress}
+
+                def check(out):
+                    ex = out.ex
+                    ex.oblige(f"raises.nothing[{out.exc}]" if out.kind == "raise" else "raises.nothing", z3.BoolVal(out.kind == "return"), "post")
+                    if out.kind != "return":
+                        return
+                    ex.oblige("post.returns_the_chunk_list", z3.BoolVal(isinstance(out.value, (ChunkList, list))), "post")
+                yield Case(f"D={D},suppress_small={ss}", make_env, check, loops=self._loops())
+
+    @staticmethod
+    def _on_append(ex, cl, x, node):
+        g = ex.ghost
+        P, names = g["P"], g["names"]
+        ctx = ex.ctx
+        idx = g["env"].get("idx")
+        g["idx"] = idx
+        ok = isinstance(idx, z3.ArithRef) and isinstance(x, (Text, str))
+        ex.oblige("chunk.is_text_for_the_visited_term", z3.BoolVal(ok), "post", node)
+        if not ok:
+            return
+        ex.oblige("chunk.one_per_term", z3.BoolVal(len(cl.appended) == 0), "post", node)
+        rd = read_chunk(x)
+        ex.oblige("chunk.reads_back" + (f"[{rd['error']}]" if rd["error"] else ""), z3.BoolVal(rd["error"] is None), "post", node,
+                  note="sign, optional number, then name[exponent] factors separated by the multiplication sign")
+        if rd["error"]:
+            return
+        c = P.C(idx, the_idx(P.shape))
+        if rd["coef"] is not None:
+            value = rd["coef"]
+        else:
+            value = z3.RealVal(-1 if rd["minus"] else 1)
+        ex.oblige("chunk.denotes.coefficient", value == c, "post", node,
+                  note="the number printed (or the elided 1 / -1) is exactly the coefficient of the term")
+        ex.oblige("chunk.denotes.not_empty", z3.BoolVal(rd["coef"] is not None or bool(rd["factors"])), "post", node,
+                  note="an elided coefficient needs at least one indeterminate after it")
+        for d in range(g["D"]):
+            es = [e for (n, e) in rd["factors"] if z3.eq(n, names[d])]
+            ex.oblige(f"chunk.denotes.at_most_one_factor[{d}]", z3.BoolVal(len(es) <= 1), "post", node)
+            tot = sum([e if isinstance(e, z3.ExprRef) else z3.IntVal(e) for e in es], z3.IntVal(0))
+            ex.oblige(f"chunk.denotes.exponent[{d}]", tot == expo(P.row(idx), d), "post", node,
+                      note="the d-th indeterminate appears with exactly the stored exponent (absent iff the exponent is 0)")
+        foreign = [n for (n, e) in rd["factors"] if not any(z3.eq(n, m) for m in names)]
+        ex.oblige("chunk.denotes.only_the_polynomial_s_names", z3.BoolVal(not foreign), "post", node)
+        neg = (rd["coef"] < 0) if rd["coef"] is not None else z3.BoolVal(rd["minus"])
+        signed = z3.Or(z3.BoolVal(rd["plus"]), neg)
+        ex.oblige("chunk.separator.later_chunks_start_with_a_sign", z3.Implies(cl.L > 0, signed), "post", node,
+                  note="the chunks are joined without separator: each but the first must begin with + or -")
+        ex.oblige("chunk.separator.plus_only_before_a_non_negative_term", z3.Implies(z3.BoolVal(rd["plus"]), z3.Not(neg)), "post", node)
+
+
+CONTRACTS = [ToStringBody()]
